@@ -482,26 +482,33 @@ func modelDeepEqual(it *Interp) {
 var plmnA = plmnText{"208", "93"}
 var plmnB = plmnText{"466", "092"}
 
-// taiArgs builds []models.Tai with symbolic TACs; mixed: alternate two PLMNs (distinct objects),
-// otherwise every entry points to its own copy of PLMN A.
-func taiArgs(it *Interp, st *state, n int, mixed bool) (SliceV, []plmnText) {
+var plmnC = plmnText{"208", "01"} // same MCC as plmnA, different MNC
+
+// taiArgs builds []models.Tai with symbolic TACs, one PLMN object per entry.
+func taiArgs(it *Interp, st *state, plmns []plmnText) SliceV {
 	var elems []AggV
-	var plmns []plmnText
-	for i := 0; i < n; i++ {
-		p := plmnA
-		if mixed && i%2 == 1 {
-			p = plmnB
-		}
-		plmns = append(plmns, p)
+	for i, p := range plmns {
 		elems = append(elems, AggV{Cells: map[string]Value{".PlmnId": plmnPtr(it, st, fmt.Sprintf("plmn%d", i), p), ".Tac": it.HexString(fmt.Sprintf("tac%d", i), 6)}})
 	}
-	return sliceOfAggs(it, st, "tais", elems), plmns
+	return sliceOfAggs(it, st, "tais", elems)
+}
+
+func repeatPlmns(n int, ps ...plmnText) []plmnText {
+	var out []plmnText
+	for i := 0; i < n; i++ {
+		out = append(out, ps[i%len(ps)])
+	}
+	return out
 }
 
 // wantTaiList: TS 24.501 9.11.3.9: 0 | type of list (2) | number of elements - 1 (5); type 00:
 // PLMN then the TACs; type 10: PLMN and TAC per element.
-func wantTaiList(it *Interp, plmns []plmnText, mixed bool) []BV {
+func wantTaiList(it *Interp, plmns []plmnText) []BV {
 	n := len(plmns)
+	mixed := false
+	for _, p := range plmns {
+		mixed = mixed || p != plmns[0]
+	}
 	typ := uint64(0)
 	if mixed {
 		typ = 2
@@ -524,24 +531,28 @@ func checkTaiList(c *listCtx) {
 	if fn == nil {
 		return
 	}
-	for _, mixed := range []bool{false, true} {
-		for _, n := range []int{1, 2, 3, 16} {
-			if mixed && n == 1 {
-				continue
-			}
-			c.r.Site("lay.tai-list")
-			it := newListInterp(c.w)
-			modelDeepEqual(it)
-			st := it.NewState()
-			arg, plmns := taiArgs(it, st, n, mixed)
-			res := it.Call(fn, []Value{arg}, st, 0)
-			got, ok := sliceBytes(it, st, res)
-			msg := "result not resolvable"
-			if ok {
-				ok, msg = sameOctets(it, "TAI list", got, wantTaiList(it, plmns, mixed))
-			}
-			c.verdict("lay.tai-list", fname, fmt.Sprintf("%d TAIs, several PLMNs=%v", n, mixed), fn, it, ok, msg)
+	shapes := [][]plmnText{repeatPlmns(1, plmnA), repeatPlmns(2, plmnA), repeatPlmns(3, plmnA), repeatPlmns(16, plmnA),
+		{plmnA, plmnB}, {plmnA, plmnB, plmnA}, {plmnA, plmnC}, {plmnA, plmnA, plmnC}, {plmnC, plmnA}, repeatPlmns(16, plmnA, plmnB)}
+	for _, plmns := range shapes {
+		c.r.Site("lay.tai-list")
+		it := newListInterp(c.w)
+		modelDeepEqual(it)
+		st := it.NewState()
+		arg := taiArgs(it, st, plmns)
+		res := it.Call(fn, []Value{arg}, st, 0)
+		got, ok := sliceBytes(it, st, res)
+		msg := "result not resolvable"
+		if ok {
+			ok, msg = sameOctets(it, "TAI list", got, wantTaiList(it, plmns))
 		}
+		var names []string
+		for _, p := range plmns {
+			names = append(names, p.mcc+"-"+p.mnc)
+		}
+		if len(names) > 4 {
+			names = append(names[:3], fmt.Sprintf("... (%d TAIs)", len(plmns)))
+		}
+		c.verdict("lay.tai-list", fname, "PLMNs "+strings.Join(names, ","), fn, it, ok, msg)
 	}
 }
 
@@ -616,12 +627,13 @@ func checkLadnToNas(c *listCtx) {
 			modelDeepEqual(it)
 			st := it.NewState()
 			dnn, dnnB := symText(it, "dnn", dl)
-			arg, plmns := taiArgs(it, st, n, false)
+			plmns := repeatPlmns(n, plmnA)
+			arg := taiArgs(it, st, plmns)
 			res := it.Call(fn, []Value{dnn, arg}, st, 0)
 			got, ok := sliceBytes(it, st, res)
 			msg := "result not resolvable"
 			if ok {
-				tl := wantTaiList(it, plmns, false)
+				tl := wantTaiList(it, plmns)
 				want := append([]BV{it.constBV(uint64(dl), 8)}, dnnB...)
 				want = append(want, it.constBV(uint64(len(tl)), 8))
 				want = append(want, tl...)
@@ -707,7 +719,7 @@ func propC13(w *World, r *Report, tier string) {
 		r.Expect("dec.snssai", 266)
 		r.Expect("walk.nssai", 20)
 		r.Expect("lay.rejected-nssai", 4)
-		r.Expect("lay.tai-list", 7)
+		r.Expect("lay.tai-list", 10)
 		r.Expect("lay.service-area", 10)
 		r.Expect("lay.ladn", 6)
 		r.Expect("walk.ladn", 6)
